@@ -61,6 +61,18 @@ lines.append("|---|---|---|")
 for p, k, w in fn:
     lines.append("| %s | `%s` | %s |" % (p, k, w.replace("|", "\\|")))
 
+lines.append("\n### 10.2b Theorems that are partial or refuted, by name\n")
+lines.append("A `_partial` theorem carries an explicit side condition (stated in `coq/props/<id>.v` next to the full statement it falls short of); a `_refuted` theorem proves, with a `vm_compute` witness that is also replayed on the real code by the harness corpus, that the full statement is false of the faithful model (`_old_refuted`: of the code before a `fix:` commit).\n")
+lines.append("| id | partial | refuted |")
+lines.append("|---|---|---|")
+for pr in props:
+    pid = pr["id"]
+    th = theorems(pid)
+    part = [t for t in th if "partial" in t]
+    ref = [t for t in th if "refuted" in t]
+    if part or ref:
+        lines.append("| %s | %s | %s |" % (pid, ", ".join("`%s`" % t for t in part), ", ".join("`%s`" % t for t in ref)))
+
 lines.append("\n### 10.3 Seeded breaking changes (written by fresh sub-agents that saw only the property text) and which checks catch them\n")
 rows = []
 for d in sorted(glob.glob(os.path.join(ROOT, "seeded", "*"))):
